@@ -414,6 +414,61 @@ def gen_case(rng, length=(10, 40)):
     return L
 
 
+CROSS_POOL = [0, 1, -1, 5, 2**24 - 1, 2**24, 2**24 + 1, 2**31 - 1, 2**31, 2**32 - 1, 2**32, 2**53 - 1, 2**53, 2**53 + 1,
+              2**63 - 1, 2**63, 2**64 - 1, -2**31, -2**53 - 1, -2**63, 2**62 + 1]
+
+
+def cross_case(rng):
+    """comparisons between two signals of different numeric types inside a query, with values at the edges where
+    the types part ways: 2^24 (float), 2^53 (double), 2^31 / 2^32 / 2^63 / 2^64 (integer widths), negative against
+    unsigned"""
+    r = rng
+    L = [[H.PERM, 0] + E.s(H.ALL_SCOPE)]
+    nums = [(p, t) for (p, t) in SIGNALS if t in NUMERIC]
+    (pa, ta), (pb, tb) = r.sample(nums, 2)
+    if r.random() < 0.7:        # mostly a wide integer against a float type
+        (pa, ta) = r.choice([s for s in nums if s[1] in (5, 9, 4, 8)])
+        (pb, tb) = r.choice([s for s in nums if s[1] in (10, 11) and s[0].count(".") == 1])
+        if r.random() < 0.5:
+            (pa, ta), (pb, tb) = (pb, tb), (pa, ta)
+    reg = [(pa, ta), (pb, tb)]
+    for (path, t) in reg:
+        L.append([H.ADD, 0] + E.s(path) + [t, r.choice([0, 2]), 0, 0, 0, 0])
+
+    # one edge per case: most values sit on it or next to it, on both sides of the comparison
+    edge = r.choice([2**24, 2**53, 2**53, 2**63, 2**31, 2**32, 2**64 - 1, -2**53, -2**63, 0])
+    near = [edge - 2, edge - 1, edge, edge + 1, edge + 2]
+
+    def val(t):
+        k = KIND_OF[t]
+        focus = r.random() < 0.7
+        if t in RANGE:
+            lo, hi = RANGE[t]
+            c = [x for x in (near if focus else CROSS_POOL) if lo <= x <= hi] or [x for x in CROSS_POOL if lo <= x <= hi]
+            return E.val(k, r.choice(c))
+        x = float(r.choice(near if focus else CROSS_POOL))
+        if r.random() < 0.2:
+            x = r.choice([x + 0.5, x * 1.0000001, x - 1.0])
+        return E.val(k, E.f32_bits(x) if t == T_FLOAT else E.f64_bits(x))
+
+    for i, (_p, t) in enumerate(reg):
+        L.append([H.UPDATE, 0, 1, i, 1] + val(t))
+    ops = r.sample(OPS[2:], 3)
+    for op in ops:
+        a, b = (("id", pa), ("id", pb)) if r.random() < 0.7 else (("id", pb), ("id", pa))
+        where = ("bin", op, a, b)
+        if r.random() < 0.2:
+            where = ("not", where)
+        L.append(subq_line(0, [("expr", ("id", pa)), ("expr", ("id", pb))], where, 0))
+    if r.random() < 0.5:
+        L.append(subq_line(0, [("expr", ("id", pa))], ("between", ("id", pa), r.random() < 0.3, ("id", pb), ("id", pb)), 0))
+    for _ in range(r.randrange(8, 20)):
+        i = r.randrange(2)
+        L.append([H.UPDATE, 0, 1, i, 1] + val(reg[i][1]))
+    L.append([H.DUMP])
+    return L
+
+
 GARBAGE_TOKENS = ["SELECT", "WHERE", "FROM", "AND", "OR", "NOT", "BETWEEN", "LAG", "(", ")", ",", "=", "<", ">", "*",
                   "1", "0.5", "'a'", "\"q\"", "Vehicle.I32", "Vehicle.F32", "Vehicle", ".", ";", "AS", "x", "NULL", "IN",
                   "--", "/*", "LAG()", "LAG(Vehicle.I32)", "CAST", "::", "[", "]", "\\", "'", "\x00", "é", "SELECT *",
@@ -686,6 +741,9 @@ def resolve(a, b):
     return a, b
 
 
+DECLINED_IS_UNKNOWN = True
+
+
 def is_float(v):
     return v[0] in (E.F32, E.F64)
 
@@ -706,9 +764,12 @@ def compare(op, va, vb):
     xa, xb = E.exact(*va), E.exact(*vb)
     if xa is None or xb is None:
         return UNKNOWN
-    # comparisons the broker declines (documented in C13): 64-bit integers beyond 32 bits against floats
+    # comparisons the broker declines (documented in C13): 64-bit integers beyond 32 bits against floats.
+    # Declining is admissible (no row); an answer, if one is given, must still be the right one: the second pass of
+    # `judge` (DECLINED_IS_UNKNOWN off) computes the exact truth value for that purpose
     for (p, q) in ((va, vb), (vb, va)):
-        if p[0] in (E.I64, E.U64) and is_float(q) and not (-2**31 <= p[1] < 2**31 if p[0] == E.I64 else p[1] < 2**32):
+        if DECLINED_IS_UNKNOWN and p[0] in (E.I64, E.U64) and is_float(q) and \
+                not (-2**31 <= p[1] < 2**31 if p[0] == E.I64 else p[1] < 2**32):
             return UNKNOWN
     if "nan" in (xa, xb):
         return (op == "<>")
@@ -1084,6 +1145,19 @@ def judge(s, got, change, store, before, P, ticked, initial=False):
                                           else "without truth value (unavailable operand)" if w == NULL
                                           else "true" if w else "false")] += 1
     if w == UNKNOWN:
+        if got and tw is not None:
+            # a comparison the broker may decline was answered: the answer has to be the mathematically right one
+            global DECLINED_IS_UNKNOWN
+            DECLINED_IS_UNKNOWN = False
+            try:
+                w2 = truth(tw, cur, prev)
+            finally:
+                DECLINED_IS_UNKNOWN = True
+            if w2 is False:
+                STATS["rounds judged: a declinable comparison answered wrongly"] += 1
+                fails.append("C12-where: subscription %d (%s) got a response although its condition is false (a comparison "
+                             "between a 64-bit integer and a float that the broker may decline, but not answer wrongly)" % (
+                                 s["h"], s["sql"]))
         return fails
     if w is not True:
         if got:
